@@ -250,15 +250,27 @@ def rule_port(ctx):
     from .. import paths as P
     rps = P.returns(g.node)
     oki = bool(rps) and any(not (isinstance(p_.value, ast.Constant) and p_.value.value is None) for p_ in rps)
+    okb = oki
     for p_ in rps:
         if isinstance(p_.value, ast.Constant) and p_.value.value is None:
             continue
         # ... or int(...) itself
-        oki = oki and (any(pol and isinstance(t, ast.expr) and norm(t) == f'isinstance({norm(p_.value)}, int)' for t, pol, _n in p_.conds)
-                       or (isinstance(p_.value, ast.Call) and norm(p_.value.func) == 'int'))
+        v_ = norm(p_.value)
+        is_int = any(pol and isinstance(t, ast.expr) and norm(t) in (f'isinstance({v_}, int)', f'type({v_}) is int') for t, pol, _n in p_.conds)
+        oki = oki and (is_int or (isinstance(p_.value, ast.Call) and norm(p_.value.func) == 'int'))
+        # bool is a subclass of int: JSON true / false pass isinstance(x, int); the path must have excluded them (or the
+        # value is the result of int(...) on a string, or the test was on the exact type)
+        exact = any(pol and isinstance(t, ast.expr) and norm(t) == f'type({v_}) is int' for t, pol, _n in p_.conds) or \
+            any((not pol) and isinstance(t, ast.expr) and norm(t) in (f'isinstance({v_}, bool)', f'type({v_}) is bool') for t, pol, _n in p_.conds) or \
+            (isinstance(p_.value, ast.Call) and norm(p_.value.func) == 'int')
+        okb = okb and exact
     ctx.check(oki, 'C19.PORT', ctx.key(g, None, 'integers only'), '_integer returns an int or None',
               '_integer can return a non-integer', loc=ctx.loc(g, g.node))
-    return n + 1
+    ctx.check(okb, 'C19.PORT', ctx.key(g, None, 'booleans are not integers'),
+              'no path of _integer returns a value that may be a JSON boolean',
+              '_integer returns a value established only by isinstance(x, int): JSON true / false pass (bool is a subclass of int) - a peer '
+              'announced with "tcp_port": true carries the port True and is advertised as "tTrue"', loc=ctx.loc(g, g.node))
+    return n + 2
 
 
 def rule_public(ctx):
